@@ -293,7 +293,7 @@ def cases_loops(rng, n):
     units = dict(pytrans.build_units(common.REPO))
     for fname, cls in (("adb_device.py", "AdbDevice"), ("adb_device_async.py", "AdbDeviceAsync")):
         u = units[fname]
-        for meth in ("read_bytes_from_device", "write_all"):
+        for meth in ("read_bytes_from_device", "write_all", "read_expected_packet_from_device"):
             for suffix in ("cond", "iter", "eff0_args"):
                 lean_name = "%s_%s_%s" % (cls, meth, suffix)
                 fn = u.fns.get(lean_name)
@@ -312,7 +312,12 @@ def cases_loops(rng, n):
                     info.transport_timeout_s = rng.choice([None, 1, 10])
                     vals = {}
                     start = rng.randrange(0, 1000)
-                    if meth == "read_bytes_from_device":
+                    if meth == "read_expected_packet_from_device":
+                        from adb_shell import constants
+                        vals = dict(adb_info=info, arg0=None, arg1=None, cmd=None, data=None, expected_cmds=rng.choice([[constants.CNXN], [constants.AUTH, constants.CNXN], []]),
+                                    start=start, eff0=(rng.choice([constants.CNXN, constants.AUTH, constants.WRTE]), rng.choice([0, 1, 2 ** 32 - 1]), 7, rng.choice([b"", b"tok"])),
+                                    now=start + rng.choice([0, 5, 6, 11]))
+                    elif meth == "read_bytes_from_device":
                         length = rng.choice([0, 1, 4, 24])
                         got = rng.choice([0, 1, length, max(0, length - 1), length + 2])
                         vals = dict(adb_info=info, data=bytearray(rng.randbytes(rng.choice([0, 3]))), length=length, start=start, temp=b"", eff0=rng.randbytes(got),
